@@ -1,0 +1,62 @@
+//! **(verification only)** Observation hooks compiled in only with the cargo feature `verif-hooks`.
+//!
+//! The module offers a thread-local, append-only event log that the evaluation algorithm writes to
+//! at a few points (cache traffic, pattern shortcuts, domain restriction), and re-exports of the
+//! otherwise private canonization functions. Nothing here influences the computation.
+
+use std::cell::RefCell;
+
+pub use crate::evaluation::{
+    verif_get_canonical as get_canonical,
+    verif_get_canonical_and_renaming as get_canonical_and_renaming,
+};
+
+/// Events emitted from inside `eval_node`.
+#[derive(Clone, Debug, Eq, PartialEq)]
+pub enum Event {
+    /// A sub-formula result was served from the cache. `key` is the canonical formula, `domains`
+    /// the debug rendering of the canonical domain map, `renamed` says whether the stored and
+    /// current variable names differed, `remaining` is the duplicate counter after the hit.
+    CacheHit {
+        key: String,
+        domains: String,
+        renamed: bool,
+        remaining: i32,
+        in_restricted_scope: bool,
+    },
+    /// A sub-formula result was stored to the cache.
+    CacheSave { key: String, domains: String },
+    /// A cache entry was removed (its counter reached zero).
+    CacheEvict { key: String, domains: String },
+    /// One of the two pattern shortcuts was taken (`attractor` / `fixed_point`).
+    Pattern {
+        kind: &'static str,
+        in_restricted_scope: bool,
+    },
+    /// A graph with a restricted unit set was built for a quantifier with a domain.
+    RestrictedGraph { var: String, domain: String },
+    /// A quantifier over an empty domain was answered by a constant.
+    EmptyDomainShortcut { op: String },
+}
+
+thread_local! {
+    static LOG: RefCell<Vec<Event>> = const { RefCell::new(Vec::new()) };
+    static ENABLED: RefCell<bool> = const { RefCell::new(false) };
+}
+
+/// Turn recording on or off for the current thread (off by default).
+pub fn set_enabled(enabled: bool) {
+    ENABLED.with(|e| *e.borrow_mut() = enabled);
+}
+
+/// Append an event to the current thread's log (if recording is enabled).
+pub fn emit(event: Event) {
+    if ENABLED.with(|e| *e.borrow()) {
+        LOG.with(|l| l.borrow_mut().push(event));
+    }
+}
+
+/// Take all events recorded by the current thread so far.
+pub fn drain() -> Vec<Event> {
+    LOG.with(|l| std::mem::take(&mut *l.borrow_mut()))
+}
